@@ -27,10 +27,12 @@ EXTENDS BoolSem, FiniteSetsExt, SequencesExt
 SetMax(S) == CHOOSE x \in S : \A y \in S : y <= x
 SetMin(S) == CHOOSE x \in S : \A y \in S : x <= y
 
+\* policy: "rec" = choices are read from the recorded events m.ev; "min" / "max" = the smallest / largest
+\* free ancilla is handed out and operand sets are iterated in ascending / descending order (model checking)
 M0(U, ev, inputs, rets, temps) ==
-   [nq |-> 0, gates |-> <<>>, gcomp |-> <<>>, anc |-> {}, free |-> {}, marked |-> {}, qmap |-> <<>>,
+   [policy |-> "rec", nq |-> 0, gates |-> <<>>, gcomp |-> <<>>, anc |-> {}, free |-> {}, marked |-> {}, qmap |-> <<>>,
     emap |-> {}, val |-> <<>>, gid |-> 0, ev |-> ev, ci |-> 1, U |-> U,
-    inputs |-> inputs, rets |-> rets, temps |-> temps, err |-> "", flags |-> {}]
+    inputs |-> inputs, rets |-> rets, temps |-> temps, err |-> "", flags |-> {}, recycled |-> {}]
 
 Err(m, e) == IF m.err = "" THEN [m EXCEPT !.err = e] ELSE m
 
@@ -71,13 +73,18 @@ Consume(m) == [m EXCEPT !.ci = m.ci + 1]
 
 GetFree(m) ==
   IF m.err # "" THEN [m |-> m, r |-> 0]
+  ELSE IF m.policy # "rec" THEN
+       (IF m.free = {}
+        THEN LET m1 == AddQubit(m, "anc_" \o ToString(Cardinality(m.anc)), {}) IN [m |-> [m1 EXCEPT !.anc = m.anc \cup {m.nq}], r |-> m.nq]
+        ELSE LET q == IF m.policy = "min" THEN SetMin(m.free) ELSE SetMax(m.free) IN
+             [m |-> [m EXCEPT !.free = m.free \ {q}, !.recycled = @ \cup {q}], r |-> q])
   ELSE IF ~HasEv(m, "g") THEN [m |-> Err(m, "no-ancilla-hand-out-recorded"), r |-> 0]
   ELSE LET v == NextEv(m, "g") IN
   IF m.free = {}
   THEN LET m1 == AddQubit(m, "anc_" \o ToString(Cardinality(m.anc)), {})
            m2 == Consume([m1 EXCEPT !.anc = m.anc \cup {m.nq}])
        IN [m |-> IF v = m.nq THEN m2 ELSE Err(m2, "recorded-ancilla-is-not-the-new-qubit"), r |-> m.nq]
-  ELSE IF v \in m.free THEN [m |-> Consume([m EXCEPT !.free = m.free \ {v}]), r |-> v]
+  ELSE IF v \in m.free THEN [m |-> Consume([m EXCEPT !.free = m.free \ {v}, !.recycled = @ \cup {v}]), r |-> v]
   ELSE [m |-> Err(m, "recorded-ancilla-is-not-free"), r |-> SetMin(m.free)]
 Mark(m, q) == IF q \in m.anc THEN [m EXCEPT !.marked = m.marked \cup {q}] ELSE m
 MarkAll(m, S) == [m EXCEPT !.marked = m.marked \cup (S \cap m.anc)]
@@ -117,7 +124,9 @@ RmFirst(s, x) == LET I == {i \in 1..Len(s) : s[i] = x} IN
 
 \* list(set(erets)) in the recorded iteration order
 Ordered(m, S) ==
-  IF ~HasEv(m, "o") THEN [m |-> Err(m, "no-operand-order-recorded"), s |-> SetToSortSeq(S, <)]
+  IF m.policy = "min" THEN [m |-> m, s |-> SetToSortSeq(S, <)]
+  ELSE IF m.policy = "max" THEN [m |-> m, s |-> SetToSortSeq(S, >)]
+  ELSE IF ~HasEv(m, "o") THEN [m |-> Err(m, "no-operand-order-recorded"), s |-> SetToSortSeq(S, <)]
   ELSE LET v == NextEv(m, "o") IN
   IF ToSet(v) = S /\ Len(v) = Cardinality(S) THEN [m |-> Consume(m), s |-> v]
   ELSE [m |-> Err(Consume(m), "recorded-operand-order-is-not-the-operand-set"), s |-> SetToSortSeq(S, <)]
@@ -163,7 +172,8 @@ COr(m, e, dest) ==
       cs == o.s
       RECURSIVE CXs(_, _) CXs(j, mm) == IF j > Len(cs) THEN mm ELSE CXs(j + 1, NewGate(mm, <<cs[j], g0.r>>))
       RECURSIVE Xs(_, _) Xs(j, mm) == IF j > Len(cs) THEN mm ELSE Xs(j + 1, NewGate(mm, <<cs[j]>>))
-      m1 == IF Len(cs) <= 2 THEN NewGate(CXs(1, o.m), Append(cs, g0.r))
+      m1 == IF Len(cs) = 1 THEN NewGate(o.m, <<cs[1], g0.r>>)
+            ELSE IF Len(cs) <= 2 THEN NewGate(CXs(1, o.m), Append(cs, g0.r))
             ELSE Xs(1, NewGate(NewGate(Xs(1, o.m), Append(cs, g0.r)), <<g0.r>>))
   IN [m |-> EMapSet(MarkAll(m1, ToSet(cs)), e, g0.r), r |-> g0.r]
 
@@ -180,7 +190,7 @@ CNot(m, e, dest, sym) ==
 
 CSym(m, e, dest, sym) ==
   IF sym # "" /\ sym \in m.rets THEN
-     IF e.n \in m.inputs
+     IF e.n \in m.inputs \/ (QHas(m, e.n) /\ QGet(m, e.n) < Cardinality(m.inputs))
      THEN LET m1 == AddQubit(m, sym, {}) IN [m |-> NewGate(m1, <<QGet(m1, e.n), m.nq>>), r |-> m.nq]
      ELSE [m |-> IF QHas(m, e.n) THEN m ELSE Err(m, "symbol-not-found"), r |-> QGet(m, e.n)]
   ELSE [m |-> IF QHas(m, e.n) THEN m ELSE Err(m, "symbol-not-found"), r |-> QGet(m, e.n)]
@@ -191,6 +201,8 @@ CConst(m, e) ==
 
 CExpr(m, e, dest, sym) ==
   IF m.err # "" THEN [m |-> m, r |-> 0]
+  ELSE IF e.op \in {"true", "false"} /\ sym # "" /\ sym \in m.rets
+       THEN LET m1 == AddQubit(m, sym, {}) IN [m |-> IF e.op = "true" THEN NewGate(m1, <<m.nq>>) ELSE m1, r |-> m.nq]
   ELSE IF e.op \in {"true", "false"} THEN CConst(m, e)
   ELSE IF e.op = "sym" THEN CSym(m, e, dest, sym)
   ELSE IF EMapHas(m, e) THEN [m |-> m, r |-> EMapGet(m, e)]
@@ -242,9 +254,11 @@ Finish(c, m1) ==
       keep == {QGet(m2, r) : r \in {x \in ToSet(c.retbits) : QHas(m2, x)}}
       m3 == UncomputeAll(m2, keep)
       left == \E q \in Len(c.inputs)..(m3.nq - 1) : q \notin keep /\ m3.val[q + 1] # {}
+      \* diagnostic (ghost): a return bit lives on a qubit that was used as scratch before it was handed out again
+      recyc == IF keep \cap m2.recycled # {} THEN {"return-qubit-is-a-recycled-ancilla"} ELSE {}
   IN IF m1.err # "" THEN m1
-     ELSE IF c.unc THEN [m3 EXCEPT !.flags = IF left THEN @ \cup {"uncompute_all-left-a-qubit-non-zero"} ELSE @]
-     ELSE m2
+     ELSE IF c.unc THEN [m3 EXCEPT !.flags = (IF left THEN @ \cup {"uncompute_all-left-a-qubit-non-zero"} ELSE @) \cup recyc]
+     ELSE [m2 EXCEPT !.flags = @ \cup recyc]
 Compile(c, U) == Finish(c, Stmts(c, 1, Start(c, U)))
 
 \* ---- invariants of the synthesis machine (stronger than any property: evaluated as diagnostics)
